@@ -646,8 +646,9 @@ impl<P: Payload> State<P> {
             (Outcome::Panic(msg), _) if !expect_refusal => {
                 diverged = true;
                 let mut props: Vec<&'static str> = vec!["C05"];
-                if let Op::Ins { .. } = op {
-                    // a possible insert (incl. re-insert in place) must succeed
+                if matches!(op, Op::Ins { .. } | Op::AppendValue(_)) {
+                    // a possible insert (incl. re-insert in place) must succeed; append_value(v) must do
+                    // what new_node(v) + append does, which succeeds
                     props.push("C03");
                 }
                 findings.push(Finding::new(
@@ -664,8 +665,23 @@ impl<P: Payload> State<P> {
                     format!("possible request was rejected with {:?}", e),
                 ));
             }
-            (Outcome::Ret(Ret::Res(Err(e))), _) => {
+            (Outcome::Ret(Ret::Res(Err(e))), Op::Ins { kind: ikind, .. }) => {
                 let name = format!("{:?}", e);
+                // a variant that names an entry point must name the one that was called
+                let called = match ikind {
+                    InsKind::Append => "Append",
+                    InsKind::Prepend => "Prepend",
+                    InsKind::After => "InsertAfter",
+                    InsKind::Before => "InsertBefore",
+                };
+                let names_other = ["Append", "Prepend", "InsertAfter", "InsertBefore"].iter().any(|p| *p != called && name.starts_with(p));
+                if names_other {
+                    findings.push(Finding::new(
+                        &["C05"],
+                        format!("outcome/{}/{:?}/reason-of-another-entry-point", kind, rel),
+                        format!("{} rejected the request with {}, the reason of a different entry point", kind, name),
+                    ));
+                }
                 if reason_applies(&name, why) == Some(false) {
                     findings.push(Finding::new(
                         &["C05"],
